@@ -1799,10 +1799,12 @@ class Font(BaseObject):
             self._images.setDataFromSerialization(data)
 
         def set_guidelines(key, data):
+            # remove the existing guidelines first, then let the identifier
+            # setter register the identifier of each new guideline
+            self.clearGuidelines()
             guides = []
             for d in data:
-                guide = self.instantiateGuideline()
-                guide.setDataFromSerialization(d)
+                guide = self.instantiateGuideline(guidelineDict=d)
                 guides.append(guide)
             set_attr(key, guides)
 
